@@ -9,8 +9,8 @@ Local Open Scope R_scope.
 (* the normalisation constants exist and are positive whenever no segment is
    thinner than the Pk threshold, for any number of segments *)
 Theorem C11_A_defined : forall J res a mb, valid_imf a mb ->
-  Forall (fun p => p <> None) (seg_P (O:=R_ops J) res 1 a mb) ->
-  exists A, A_comps (O:=R_ops J) res a mb = Some A /\ length A = length a /\ Forall (fun x => 0 < x) A.
+  List.Forall (fun p => p <> None) (seg_P (O:=R_ops J) res 1 a mb) ->
+  exists A, A_comps (O:=R_ops J) res a mb = Some A /\ length A = length a /\ List.Forall (fun x => 0 < x) A.
 Proof. exact A_comps_defined. Qed.
 Print Assumptions C11_A_defined.
 
